@@ -55,7 +55,9 @@ func checkC10(p *Prog, r *Report) {
 	r.rule("C10.impl-agreement: the verdict must not depend on the Resource implementation: both implementations of Get must use the same nil convention (a typed nil pointer)")
 	r.assume("well-typed filters (the property's domain): the filter value has the Go type of the field; 'and'/'or' hold []*Filter")
 	r.assume("Go's comparison operators on string, int64 and uint64 and time.Time's Before/After/Equal are the natural total orders (language / standard-library contract)")
-	r.notCovered("set equality of to-many relationships beyond the operator structure of the helper (its sort-and-compare loops are not folded)")
+	r.rule("C10.set-equality: the two ID lists checkSlice compares element by element are both values canonicalised by a dominating sort.Strings")
+	r.notCovered("set equality of to-many relationships beyond the operator structure of the helper and the canonicalisation of both compared lists (the compare loop itself is not folded)")
+	checkSliceCanon(p, r)
 	r.notCovered("fetching the field value (Resource.Get) — C17")
 
 	ia := p.Fn("(*Filter).IsAllowed")
@@ -660,4 +662,46 @@ func checkMembership(p *Prog, r *Report, m *ssa.Function) {
 func isTimeType(t types.Type) bool {
 	nt, ok := t.(*types.Named)
 	return ok && nt.Obj().Pkg() != nil && nt.Obj().Pkg().Path() == "time" && nt.Obj().Name() == "Time"
+}
+
+// checkSliceCanon: checkSlice decides equality of two ID lists as sets: the two
+// lists it compares element by element are both values that a dominating
+// sort.Strings canonicalised (the same value, or the same variable).
+func checkSliceCanon(p *Prog, r *Report) {
+	f := p.Fn("checkSlice")
+	if f == nil {
+		r.fail("anchor checkSlice not found")
+		return
+	}
+	r.fn(funcName(f))
+	oa := &orderAnalysis{p: p, r: r, tainted: map[*ssa.Function]bool{}}
+	n := 0
+	eachInstr(f, func(ins ssa.Instruction) {
+		bo, ok := ins.(*ssa.BinOp)
+		if !ok || (bo.Op != token.EQL && bo.Op != token.NEQ) {
+			return
+		}
+		elem := func(v ssa.Value) (ssa.Value, ssa.Value, bool) {
+			ld, ok := v.(*ssa.UnOp)
+			if !ok || ld.Op != token.MUL {
+				return nil, nil, false
+			}
+			ia, ok := ld.X.(*ssa.IndexAddr)
+			if !ok {
+				return nil, nil, false
+			}
+			return ia.X, ia.Index, true
+		}
+		a, ia, ok1 := elem(bo.X)
+		b, ib, ok2 := elem(bo.Y)
+		if !ok1 || !ok2 || ia != ib {
+			return
+		}
+		n++
+		for _, side := range []ssa.Value{a, b} {
+			sorted := oa.sortedBefore(side, bo.Block(), bo)
+			r.decide(sorted, "C10.set-equality", "checkSlice:compared-list:"+shorten(pathOf(side, 0)), p.pos(bo.Pos()), "compared after being sorted", "checkSlice compares a list element by element that was not sorted before (the other one was, or a sorted copy was made and the original is compared): equality of ID sets depends on the order in which the IDs are listed")
+		}
+	})
+	r.floor("elementwise comparisons in checkSlice", n, 1)
 }
